@@ -22,9 +22,9 @@
  * the same reference.  Reference = hashlib table generated at check time (expected.h); Streebog =
  * ref_streebog.c.
  *
- * H_LEVEL: 0 quick   : pattern 0: L = 2 blocks+1, alignments {0,1,3,4,8,31,63}; patterns 1-3: L = 1 block+1, {0,1,31}
- *          1 reduced : pattern 0: L = 3 blocks+1, the same 7 alignments;      patterns 1-3: L = 2 blocks+1, {0,1,31}
- *          2 full    : every pattern L = 4 blocks+1; pattern 0 with all alignments 0..63, patterns 1-3 with the 7
+ * H_LEVEL: 0 quick   : pattern 0: L = 2 blocks+1, alignments {0,1,3,4,8,16,31,32,63}; patterns 1-3: L = 1 block+1, {0,1,31}
+ *          1 reduced : pattern 0: L = 3 blocks+1, the same 9 alignments;      patterns 1-3: L = 2 blocks+1, {0,1,31}
+ *          2 full    : every pattern L = 4 blocks+1; pattern 0 with all alignments 0..63, patterns 1-3 with the 9
  * Both poisons are applied for the first H_BOTH (2; level 2: 8) alignments of the list - an aligned and
  * an unaligned source at every (n, c) - the remaining alignments alternate between the two.
  */
@@ -66,12 +66,12 @@ aligns_for(int p, const int **al, int *nal) {
 		(*nal) = 64;
 	} else {
 		(*al) = h_aligns_sub;
-		(*nal) = 7;
+		(*nal) = H_NSUB;
 	}
 #else
 	if (0 == p) {
 		(*al) = h_aligns_sub;
-		(*nal) = 7;
+		(*nal) = H_NSUB;
 	} else {
 		(*al) = h_aligns_3;
 		(*nal) = 3;
